@@ -114,12 +114,51 @@ func (n *c16cNode) c16cTokens(out *[]string) {
 			k.c16cTokens(out)
 		}
 	case 's':
-		*out = append(*out, "s"+hex.EncodeToString([]byte(n.str)))
+		if unit, cnt, ok := c16cRepUnit(n.str); ok {
+			*out = append(*out, fmt.Sprintf("r%d.%s", cnt, hex.EncodeToString([]byte(unit))))
+		} else {
+			*out = append(*out, "s"+hex.EncodeToString([]byte(n.str)))
+		}
 	case 'n':
 		*out = append(*out, "n"+n.tok+"~"+n.jtok)
 	default:
 		*out = append(*out, string(n.kind))
 	}
+}
+
+// a long string that is one unit of 1 or 2 bytes repeated is written r<count>.<hexunit> (the values around the
+// 65535-byte limit of a stored string would make lines of 130 kB otherwise)
+func c16cRepUnit(s string) (string, int, bool) {
+	if len(s) < 4096 {
+		return "", 0, false
+	}
+	for _, u := range []int{1, 2} {
+		if len(s)%u == 0 && strings.Repeat(s[:u], len(s)/u) == s {
+			return s[:u], len(s) / u, true
+		}
+	}
+	return "", 0, false
+}
+
+// the length of a stored string value is written in two bytes and the end index of its record (3 + length) is kept in a
+// uint16 by the readers: GetNewPLE refuses a document with a longer one
+const c16cMaxStringBytes = 65532
+
+// a string leaf of this size makes the ES bulk line reach the handler's record size limit (MAX_RECORD_SIZE = 63000 bytes
+// of JSON text, which is not modelled): es= is then printed as "*" on both sides
+const c16cEsMaskBytes = 60000
+
+func c16cLongestString(n *c16cNode) int {
+	m := 0
+	if n.kind == 's' {
+		m = len(n.str)
+	}
+	for _, k := range n.kids {
+		if l := c16cLongestString(k); l > m {
+			m = l
+		}
+	}
+	return m
 }
 
 // JSON number grammar: -? (0 | [1-9][0-9]*) (. [0-9]+)? ([eE] [+-]? [0-9]+)?
@@ -232,6 +271,17 @@ func c16cParse(toks []string) (*c16cNode, []string, bool) {
 			return nil, nil, false
 		}
 		return &c16cNode{kind: 's', str: string(b)}, rest, true
+	case 'r':
+		p := strings.Split(t[1:], ".")
+		if len(p) != 2 || len(p[0]) == 0 || len(p[0]) > 6 || strings.Trim(p[0], "0123456789") != "" {
+			return nil, nil, false
+		}
+		cnt, _ := strconv.Atoi(p[0])
+		b, err := hex.DecodeString(p[1])
+		if err != nil || len(b) == 0 || len(b) > 2 {
+			return nil, nil, false
+		}
+		return &c16cNode{kind: 's', str: strings.Repeat(string(b), cnt)}, rest, true
 	case 'n':
 		p := strings.Split(t[1:], "~")
 		if len(p) != 2 || !c16cNumSyntax(p[0]) || !c16cNumSyntax(p[1]) {
@@ -912,6 +962,16 @@ func c16cExec(line string) Result {
 		res.Fails = append(res.Fails, PropFail{Sig: "content/worker-failed", Msg: werr})
 		return res
 	}
+	longest := c16cLongestString(c.tree)
+	if longest >= c16cEsMaskBytes {
+		got["es"] = "*"
+		res.Tags = append(res.Tags, "es-masked-record-size")
+	}
+	if longest > c16cMaxStringBytes {
+		res.Tags = append(res.Tags, "string-over-65532")
+	} else if longest > c16cMaxStringBytes-4 {
+		res.Tags = append(res.Tags, "string-65529..65532")
+	}
 	var parts []string
 	for _, p := range c16cProtos {
 		parts = append(parts, p+"="+got[p])
@@ -979,6 +1039,12 @@ func c16cExec(line string) Result {
 		case got[p] == "panic":
 			res.Tags = append(res.Tags, "panic="+p)
 			res.Fails = append(res.Fails, PropFail{Sig: "content/" + p + "-panic", Msg: "the handler panicked on a well-formed event"})
+			continue
+		case got[p] == "*":
+			continue
+		case got[p] == "rejected" && longest > c16cMaxStringBytes:
+			// the event cannot be stored as it is (a string value of more than 65532 bytes): refused, the sender is told
+			res.Tags = append(res.Tags, "rejected-long-string="+p)
 			continue
 		case got[p] == "rejected":
 			res.Tags = append(res.Tags, "rejected="+p)
@@ -1329,6 +1395,13 @@ func c16cFixed() []*c16cNode {
 		o("", o("a", nu("1")), "a", nu("2")),
 		o("big", nu("9007199254740993"), "u64", nu("18446744073709551615"), "neg", nu("-9223372036854775808"), "f", nu("0.5"), "e", a(), "eo", o()),
 		o("time", s("t"), "event", s("e"), "index", s("i"), "host", s("h"), "source", s("s"), "fields", o("k", s("v")), "line", s("l"), "body", s("b"), "_type", s("ty"), "_id", s("id7"), "_index", s("ix")),
+		// 65532 bytes is the longest string value that can be stored and read back, anything longer must be refused
+		// (65533..65535 used to be lost or to crash the reader, longer values came back cut to their length mod 65536)
+		o("long", s(strings.Repeat("L", 65532)), "a", s("b")),
+		o("long", s(strings.Repeat("L", 65533)), "a", s("b")),
+		o("arr", a(s(strings.Repeat("L", 65534)), s("x")), "a", s("b")),
+		o("long", s(strings.Repeat("L", 65536)), "a", s("b")),
+		o("deep", o("long", s(strings.Repeat("ж", 35000))), "a", s("b")),
 	}
 }
 
@@ -1352,6 +1425,24 @@ func c16cGen(r *rand.Rand, n int, tier string) []string {
 		// keep documents well inside the record size limit and valid UTF-8
 		if js := c16cJSONOf(t, 1); len(js) > 20000 || !utf8.ValidString(js) {
 			continue
+		}
+		if r.Intn(120) == 0 {
+			// one string value around the longest a stored string can be (see c16cFixed)
+			var long string
+			if r.Intn(4) == 0 {
+				long = strings.Repeat("ж", []int{65530, 65532, 65534, 65536, 70000}[r.Intn(5)]/2)
+			} else {
+				long = strings.Repeat("L", []int{65531, 65532, 65533, 65534, 65535, 65536, 65537, 70000, 131072}[r.Intn(9)])
+			}
+			leaf := &c16cNode{kind: 's', str: long}
+			switch r.Intn(3) {
+			case 0:
+				t.keys, t.kids = append(t.keys, "zlong"), append(t.kids, leaf)
+			case 1:
+				t.keys, t.kids = append(t.keys, "zdeep"), append(t.kids, &c16cNode{kind: 'O', keys: []string{"long"}, kids: []*c16cNode{leaf}})
+			default:
+				t.keys, t.kids = append(t.keys, "zarr"), append(t.kids, &c16cNode{kind: 'A', kids: []*c16cNode{{kind: 's', str: "x"}, leaf}})
+			}
 		}
 		out = append(out, c16cLine(r, t))
 	}
